@@ -75,8 +75,9 @@ CHECKS["C14"] = {
 }
 
 STUB_HANDLE = STUB_SER + STUB_FMT + [
-    "serde_json::from_slice -> scripted deserializer: the k-th message is answered by a pre-drawn script (syntax "
-    "error, or an object with the drawn members) that drives the real derived Deserialize visitor of Request",
+    "serde_json::from_slice -> scripted deserializer: the k-th message is answered by a pre-drawn script (an error "
+    "value of category Io or - built by serde_json's own from_reader on an empty input - Eof; or an object with the "
+    "drawn members) that drives the real derived Deserialize visitor of Request",
     "serde_json::from_value -> scripted deserializer driving the real Deserialize impl of the argument struct",
     "std::io::BufReader::new -> BufReader::with_capacity(4, _) (same code, 4-byte instead of 8 KiB buffer)",
     "core::slice::memchr::{memchr,memrchr} -> naive byte loops (std's word-at-a-time versions use pointer alignment tricks)",
@@ -316,7 +317,8 @@ CHECKS["C12"] = {
           bounds="4-byte texts, every offset; unwind 8",
           stubs=["varlink_parser::varlink_grammar::ParseInterface (peg-generated) -> fails at the drawn offset, error built by "
                  "peg's own ErrorState::into_parse_error", "std::hash::RandomState::new -> fixed keys",
-                 "alloc::fmt::format -> String::new()", "core::slice::memchr::memchr -> naive byte loop"]),
+                 "alloc::fmt::format -> String::new()", "core::slice::memchr::memchr -> naive byte loop"],
+          witness="search"),
     ],
     "assumptions": [
         "reduced claim: the diagnostic arithmetic (line lookup + column). Totality and termination of the peg grammar on "
@@ -362,6 +364,9 @@ CHECKS["C06"] = {
         handle_h("c06_k1_malformed", 1, "[malformed]", ("quick", "thorough")),
         handle_h("c06_k2_second_malformed", 2, "[dispatched, malformed]", ("quick", "thorough")),
         handle_h("c06_k2_first_malformed", 2, "[malformed, dispatched]", ("quick", "thorough")),
+        handle_h("c06_k1_truncated", 1, "[truncated document: serde_json error category Eof]", ("quick", "thorough")),
+        handle_h("c06_k2_first_truncated", 2, "[truncated, dispatched]", ("quick", "thorough")),
+        handle_h("c06_k2_second_truncated", 2, "[dispatched, truncated]", ("thorough",)),
         handle_h("c01_k3_ddd_f2", 3, "[dispatched, dispatched, malformed]", ("thorough",)),
     ],
     "assumptions": CHECKS["C01"]["assumptions"] + [
